@@ -35,6 +35,13 @@ CLAIMED["C11"] = dict(
          "rendered hex (hex rendering+parsing stubbed as inverse pair).",
     ref="DESIGN.md section 3 C11")
 
+CLAIMED["C09"] = dict(
+    technique="symbolic execution of the real wrappers/Counter/CRC/KDF code (symx) over an ideal-cipher model of the "
+              "cryptography API + z3 QF_BV; argument capture for derivation constants",
+    note="Out of the claim: that AES/SM4/SHA/HMAC/CMAC/HKDF/key-wrap equal their standards (C library, stubbed); "
+         "hash/HMAC/HKDF pass-through wrappers. CRC: messages > 2 bytes are decided on parameters (same circuit family).",
+    ref="DESIGN.md section 3 C09")
+
 NOT_APPLICABLE = {
     "C18": "quantifies over OS-level crash points of a pickle file and over process schedules around a FileLock; the "
            "deciding code is pickle (C) / the file system / the scheduler - no SPSDK arithmetic or layout to encode; "
